@@ -144,8 +144,8 @@ Qed.
 Lemma pin_okb_sound : forall s x, pin_okb s x = true -> pin_ok s x.
 Proof.
   intros s x H. unfold pin_okb in H. rewrite !andb_true_iff in H.
-  destruct H as [[[[H1 H2] H3] H4] H5]. unfold pin_ok.
-  apply inclb_Sub in H1. apply inclb_Sub in H2. apply N.leb_le in H3.
+  destruct H as [[[[[H1 H2] H3] H4] H5] H6]. unfold pin_ok.
+  apply inclb_Sub in H1. apply inclb_Sub in H2. apply N.leb_le in H3. apply nodupb_sound in H6.
   repeat split; try assumption.
   - apply orb_true_iff in H4. destruct H4 as [H4|H4]; [left; apply N.leb_le; exact H4 | right; apply memN_spec; exact H4].
   - intros Hle. apply orb_true_iff in H5. destruct H5 as [H5|H5].
@@ -180,4 +180,238 @@ Proof.
     match goal with H : forallb (pend_okb s) _ = true |- _ => rewrite forallb_forall in H; apply H; exact He end.
   - repeat split; apply keys_leb_spec; assumption.
   - intros r Hr. match goal with H : match wrest s with _ => _ end = true |- _ => rewrite Hr in H; apply N.leb_le in H; exact H end.
+Qed.
+
+(* ================================================================ automation *)
+
+Lemma Bal_pw : forall a o, Bal a o -> forall p, cnt p a = cnt p o /\ (cnt p o <= 1)%nat.
+Proof. intros a o H. exact H. Qed.
+
+Lemma nodupb_cnt : forall l, nodupb l = true -> forall p, (cnt p l <= 1)%nat.
+Proof. intros l H. apply NoDup_cnt. apply nodupb_sound. exact H. Qed.
+
+Lemma disjb_cnt : forall x y, disjb x y = true -> forall p, (cnt p x > 0)%nat -> cnt p y = 0%nat.
+Proof. intros x y H. apply disjb_Dis. exact H. Qed.
+
+(* unfold the step functions / views and reduce projections of the (flat) constructor applications *)
+Ltac red_st :=
+  unfold owned_c, owned_w, cover_c, cover_w, scover_c, scover_w, eff_ufreed,
+    mut_data, mut_sys, begin_write, begin_read, add_pin, drop_pin, set_pins, sp_delete, abort, reset_w,
+    c_restored, c_adopt, c_store_dfreed, c_drain, c_store_sfreed, c_publish_dur, c_post_free, c_apply_sp,
+    finish, reset_w, n_store_ufreed, n_reclaim, n_store_sfreed, n_publish, n_post_free, reopen, e_drain, e_publish in *;
+  cbn [alloc lastid dur lat dfreed sfreed ufreed unpers pca pins pend inw wdata wsys wasc wdfr wsfr
+    wdfreed wrest wcreated wdeleted vid vdata vsys ph ptxn ppages ppersist] in *.
+
+(* rewrite multiplicities of compound lists into multiplicities of their parts *)
+Ltac cnt_norm :=
+  repeat (rewrite ?cnt_app, ?cnt_minus, ?cnt_inter, ?cnt_nil, ?cnt_flat_add_entry, ?cnt_flat_app,
+            ?cnt_flat_tab_minus in *).
+
+Ltac split_matches :=
+  repeat match goal with
+  | |- context[match ?c with O => _ | S _ => _ end] => destruct c eqn:?
+  | H : context[match ?c with O => _ | S _ => _ end] |- _ => destruct c eqn:?
+  end.
+
+(* instantiate every pointwise hypothesis at p *)
+Ltac inst_at p :=
+  repeat match goal with
+  | H : Bal _ _ |- _ => let H' := fresh "Hb" in pose proof (H p) as H'; clear H
+  | H : Sub _ _ |- _ => let H' := fresh "Hs" in pose proof (H p) as H'; clear H
+  | H : Dis _ _ |- _ => let H' := fresh "Hd" in pose proof (H p) as H'; clear H
+  | H : forall q : positive, _ |- _ => let H' := fresh "Hq" in pose proof (H p) as H'; clear H
+  end.
+
+Ltac pose_unique H :=
+  let T := type of H in
+  lazymatch goal with
+  | _ : T |- _ => fail
+  | _ => pose proof H
+  end.
+
+(* total = late + early and total = below + above the horizon, for every filtered table in sight *)
+Ltac tab_facts p :=
+  repeat match goal with
+  | |- context[flat (late ?r ?t)] => pose_unique (cnt_flat_late r p t)
+  | H : context[flat (late ?r ?t)] |- _ => pose_unique (cnt_flat_late r p t)
+  | |- context[flat (early ?r ?t)] => pose_unique (cnt_flat_late r p t)
+  | H : context[flat (early ?r ?t)] |- _ => pose_unique (cnt_flat_late r p t)
+  | |- context[flat (keys_lt ?h ?t)] => pose_unique (cnt_flat_keys h p t)
+  | H : context[flat (keys_lt ?h ?t)] |- _ => pose_unique (cnt_flat_keys h p t)
+  | |- context[flat (keys_ge ?h ?t)] => pose_unique (cnt_flat_keys h p t)
+  | H : context[flat (keys_ge ?h ?t)] |- _ => pose_unique (cnt_flat_keys h p t)
+  end.
+
+Ltac pw_core p := inst_at p; cnt_norm; tab_facts p; cnt_norm; split_matches; lia.
+
+Ltac pw :=
+  match goal with
+  | |- Bal _ _ => let p := fresh "p" in intro p; pw_core p
+  | |- Sub _ _ => let p := fresh "p" in intro p; pw_core p
+  | |- Dis _ _ => let p := fresh "p" in intro p; pw_core p
+  end.
+
+Open Scope N_scope.
+
+(* ================================================================ small facts *)
+
+Lemma minN_fold_le : forall l a x, In x (a :: l) -> fold_left N.min l a <= x.
+Proof.
+  induction l as [|b l IH]; intros a x H; simpl in *.
+  - destruct H as [->|[]]. apply N.le_refl.
+  - destruct H as [->|[->|H]].
+    + eapply N.le_trans; [apply IH; left; reflexivity | apply N.le_min_l].
+    + eapply N.le_trans; [apply IH; left; reflexivity | apply N.le_min_r].
+    + apply IH. right. exact H.
+Qed.
+
+Lemma minN_le : forall l m x, minN l = Some m -> In x l -> m <= x.
+Proof.
+  intros l m x H Hx. destruct l as [|a l]; [destruct Hx|]. simpl in H. inversion H; subst.
+  apply minN_fold_le. exact Hx.
+Qed.
+
+Lemma minN_none : forall l, minN l = None -> l = [].
+Proof. intros [|a l] H; [reflexivity | discriminate]. Qed.
+
+Lemma minN_in : forall l m, minN l = Some m -> In m l.
+Proof.
+  intros [|a l] m H; [discriminate|]. simpl in H. inversion H; subst. clear H.
+  revert a. induction l as [|b l IH]; intros a; simpl.
+  - left. reflexivity.
+  - destruct (IH (N.min a b)) as [H|H].
+    + rewrite <- H. destruct (N.min_spec a b) as [ [_ Hm] | [_ Hm] ]; rewrite Hm; auto.
+    + right. right. exact H.
+Qed.
+
+(* filters on keys *)
+Lemma late_keys_ge : forall h r t, h <= r + 1 -> late r (keys_ge h t) = late r t.
+Proof.
+  intros h r t Hh. unfold late, keys_ge. induction t as [|[k ps] t IH]; simpl; [reflexivity|].
+  destruct (k <? h) eqn:E1; simpl; destruct (r <? k) eqn:E2; simpl; rewrite ?IH; try reflexivity.
+  apply N.ltb_lt in E1. apply N.ltb_lt in E2. lia.
+Qed.
+
+Lemma late_nil_of_keys_le : forall r b t, keys_le b t -> b <= r -> late r t = [].
+Proof.
+  intros r b t Hk Hb. unfold late. induction t as [|e t IH]; simpl; [reflexivity|].
+  assert (fst e <= b) by (apply Hk; left; reflexivity).
+  destruct (r <? fst e) eqn:E; [apply N.ltb_lt in E; lia|].
+  apply IH. intros e' He'. apply Hk. right. exact He'.
+Qed.
+
+Lemma keys_le_filter : forall b (f : N * list positive -> bool) t, keys_le b t -> keys_le b (filter f t).
+Proof. intros b f t H e He. apply filter_In in He. apply H. tauto. Qed.
+
+Lemma keys_le_app : forall b t u, keys_le b t -> keys_le b u -> keys_le b (t ++ u).
+Proof. intros b t u H1 H2 e He. apply in_app_iff in He. destruct He; auto. Qed.
+
+Lemma keys_le_add_entry : forall b k ps t, keys_le b t -> k <= b -> keys_le b (add_entry k ps t).
+Proof.
+  intros b k ps t H Hk e He. apply In_keys_add_entry in He. destruct He as [He | Heq]; [auto | subst e; exact Hk].
+Qed.
+
+Lemma keys_le_mono : forall b b' t, keys_le b t -> b <= b' -> keys_le b' t.
+Proof. intros b b' t H Hb e He. specialize (H e He). lia. Qed.
+
+Lemma keys_le_tab_minus : forall b t x, keys_le b t -> keys_le b (tab_minus t x).
+Proof.
+  intros b t x H e He. apply tab_minus_keys in He. destruct He as (e0 & H0 & Hk & _).
+  rewrite <- Hk. apply H. exact H0.
+Qed.
+
+(* ================================================================ the invariant, split by view *)
+
+Definition wpin_ok (s : st) (x : pin) : Prop :=
+  Sub (ppages x) (cover_w (ptxn x) s) /\ ptxn x <= vid (lat s) /\
+  (ptxn x <= vid (dur s) \/ In (ptxn x) (map fst (pend s))) /\
+  (ptxn x <= vid (dur s) -> Dis (unpers s) (ppages x)) /\
+  NoDup (ppages x).
+
+(* keys of the freed tables: at most the latest committed id, or the id K under which the running
+   write transaction (or the epilogue of a commit) records its own entries *)
+Definition keysK (b K : N) (t : ftab) : Prop := forall e, In e t -> fst e <= b \/ fst e = K.
+
+(* working view: what holds at every point inside a write transaction, including inside commit *)
+Record InvW (K : N) (s : st) : Prop := mkInvW {
+  w_bal : Bal (alloc s) (owned_w s);
+  w_pins : forall x, In x (pins s) -> wpin_ok s x;
+  w_dur : Sub (vdata (dur s)) (cover_w (vid (dur s)) s) /\ Sub (vsys (dur s)) (scover_w (vid (dur s)) s);
+  w_unp : Dis (unpers s) (vdata (dur s) ++ vsys (dur s)) /\ Sub (pca s) (unpers s);
+  w_ascd : Dis (vdata (dur s) ++ vsys (dur s)) (wasc s);
+  w_ids : vid (dur s) <= vid (lat s) /\ vid (lat s) < K;
+  w_pend : forall e, In e (pend s) -> pend_ok s e;
+  w_keys : keysK (vid (lat s)) K (sfreed s) /\ keysK (vid (lat s)) K (ufreed s) /\ keysK (vid (lat s)) K (wdfreed s);
+  w_rest : forall r, wrest s = Some r -> r <= vid (lat s);
+  w_nopend : match pend s with [] => lat s = dur s /\ unpers s = []
+             | _ => In (vid (lat s)) (map fst (pend s)) end
+}.
+
+(* the uncommitted pages of the transaction are not pinned (holds until post-commit allocations are adopted) *)
+Definition pins_asc (s : st) : Prop := forall x, In x (pins s) -> Dis (ppages x) (wasc s).
+
+(* committed view: what an abort returns to *)
+Record InvC (s : st) : Prop := mkInvC {
+  c_bal : Bal (alloc s) (owned_c s ++ wasc s);
+  c_pins : forall x, In x (pins s) -> Sub (ppages x) (cover_c (ptxn x) s) /\ NoDup (ppages x);
+  c_dur : Sub (vdata (dur s)) (cover_c (vid (dur s)) s) /\ Sub (vsys (dur s)) (scover_c (vid (dur s)) s);
+  c_lat : Sub (vdata (lat s)) (wdata s ++ wdfr s) /\ Sub (vsys (lat s)) (wsys s ++ wsfr s);
+  c_ids : vid (lat s) <= lastid s /\ (inw s = true -> vid (lat s) < lastid s);
+  c_keys : keys_le (vid (lat s)) (dfreed s) /\ keys_le (vid (lat s)) (sfreed s) /\
+           keys_le (vid (lat s)) (ufreed s) /\ keys_le (vid (lat s)) (wdfreed s);
+  c_norm : inw s = false -> normal_w s
+}.
+
+Lemma keysK_of_le : forall b K t, keys_le b t -> keysK b K t.
+Proof. intros b K t H e He. left. apply H. exact He. Qed.
+
+Lemma cnt_late_le : forall r t p, (cnt p (flat (late r t)) <= cnt p (flat t))%nat.
+Proof. intros. rewrite (cnt_flat_late r p t). lia. Qed.
+
+Lemma cnt_early_le : forall r t p, (cnt p (flat (early r t)) <= cnt p (flat t))%nat.
+Proof. intros. rewrite (cnt_flat_late r p t). lia. Qed.
+
+Lemma cover_c_owned : forall r s p, (cnt p (cover_c r s) <= cnt p (owned_c s))%nat.
+Proof.
+  intros. unfold cover_c, owned_c. cnt_norm.
+  pose proof (cnt_late_le r (dfreed s) p). pose proof (cnt_late_le r (ufreed s) p). lia.
+Qed.
+
+Lemma scover_c_owned : forall r s p, (cnt p (scover_c r s) <= cnt p (owned_c s))%nat.
+Proof.
+  intros. unfold scover_c, owned_c. cnt_norm. pose proof (cnt_late_le r (sfreed s) p). lia.
+Qed.
+
+Lemma Inv_W : forall s, Inv s -> inw s = true -> InvW (lastid s) s.
+Proof.
+  intros s [B2 B1 P Dc Dw L U I Pe K R Np Nm] Hw.
+  constructor; try assumption.
+  - intros x Hx. destruct (P x Hx) as (_ & H2 & H3 & H4 & H5 & H6). unfold wpin_ok. auto 10.
+  - intros p Hp. destruct Dc as [Dc1 Dc2]. specialize (Dc1 p). specialize (Dc2 p).
+    destruct (B2 p) as [_ Hle]. rewrite !cnt_app in *.
+    pose proof (cover_c_owned (vid (dur s)) s p). pose proof (scover_c_owned (vid (dur s)) s p).
+    assert (Hpos : (cnt p (owned_c s) > 0)%nat) by lia. lia.
+  - destruct I as (I1 & I2 & I3). split; [exact I1 | apply I3; exact Hw].
+  - destruct K as (K1 & K2 & K3 & K4). repeat split; apply keysK_of_le; assumption.
+Qed.
+
+Lemma Inv_C : forall s, Inv s -> InvC s.
+Proof.
+  intros s [B2 B1 P Dc Dw L U I Pe K R Np Nm].
+  constructor; try assumption; try tauto.
+  intros x Hx. destruct (P x Hx) as (H1 & _ & _ & _ & _ & H6). split; assumption.
+Qed.
+
+Lemma Inv_join : forall K s, InvW K s -> InvC s -> Inv s.
+Proof.
+  intros K0 s [B1 P Dw U A I Pe K R Np] [B2 Pc Dc L Ic Kc Nm].
+  constructor; try assumption; try tauto.
+  intros x Hx. destruct (P x Hx) as (H2 & H3 & H4 & H5 & _). destruct (Pc x Hx) as [Pc1 Pc2]. unfold pin_ok. auto 10.
+Qed.
+
+Lemma Inv_pins_asc : forall s, Inv s -> pins_asc s.
+Proof.
+  intros s H x Hx p Hp. destruct H as [B2 _ P _ _ _ _ _ _ _ _ _ _].
+  destruct (P x Hx) as (H1 & _). specialize (H1 p Hp). destruct (B2 p) as [_ Hle].
+  pose proof (cover_c_owned (ptxn x) s p). rewrite cnt_app in Hle. lia.
 Qed.
